@@ -38,9 +38,10 @@ CHECKS.update({
          "back from end (known finding D11). Tie: lock step of every accessor on generated states; brute-force oracles.",
          "Coq proof of cursor machines and builder lists; lock-step correspondence on all accessors; brute-force incident-set oracle", "6 C05"),
  "C09": ("proof", "Theorems: inside a closed cell adjacent_halfface_in_cell returns the unique other halfface at the edge and is an involution; reorder_incident_halffaces on a single fan yields the rotational "
-         "order with the mirrored list on the opposite halfedge, is a permutation and idempotent. The history-level invariant (every reachable fan edge stays ordered) is tied by lock step on ordered cache "
-         "dumps and the fan oracle, not proved.",
-         "Coq proof (adjacency involution, reorder postcondition) + lock-step correspondence incl. cache order + fan oracle", "6 C09"),
+         "order with the mirrored list on the opposite halfedge, is a permutation and idempotent; HISTORY level: in every state of every history of additions, deletions in all four modes, collections, swaps "
+         "and incidence toggles every live single-fan edge is in rotational order and every live cell is closed with adjacent_halfface_in_cell an involution (Properties_C09_history.v). Tied by lock step on "
+         "ordered cache dumps and the fan oracle.",
+         "Coq proof (adjacency involution, reorder postcondition, rotational order along all histories) + lock-step correspondence incl. cache order + fan oracle", "6 C09"),
  "C10": ("proof", "Soundness and completeness theorems for every lookup against the brute-force relation over stored definitions under cache exactness and the documented preconditions; completeness of the "
          "vertex forms is refuted with parallel edges (known finding) and proved without them. Tie: exhaustive query batches in lock step; brute-force relation oracle.",
          "Coq proof (sound/complete per lookup) + refutation witness; lock-step correspondence on exhaustive query batches; brute-force oracle", "6 C10"),
@@ -93,10 +94,12 @@ CHECKS.update({
          "Tie: every truncation length of small files, every header/sub-header field x boundary values, chunk drop/duplicate/reorder, fault-injecting streambuf on read and write side, in lock step.",
          "Coq proof (prefix rejection, framing classes, stream failure) + lock-step correspondence with fault injection", "6 C18"),
  "C15": ("proof", "Theorems on the tet kernel model (built on the kernel model): shape invariant over histories incl. rejected calls; get_cell_vertices / opposite vertex / opposite halfface contracts; vertex iterator; TetTopology label tables decided over "
-         "the whole finite domain; collapse_edge shape/handle results with the property-value behaviour refuted (known finding collapse-props-parity) and the strongest partial statement proved. Tie: tet scripts in lock step; brute-force oracles.",
+         "the whole finite domain and the TetTopology constructor for every well-formed tet; collapse_edge: the cell-set characterisation (star of a removed, one rebuilt cell per tet with a replaced by b in the same cyclic order, "
+         "others untouched) in deferred mode and through collection in the immediate modes, returned handle; property-value behaviour refuted (known finding collapse-props-parity) with the strongest partial statement proved. Tie: tet scripts in lock step; brute-force oracles.",
          "Coq proof over the tet kernel model (+ whole-domain vm_compute for label tables) + lock-step correspondence + shape/opposite/collapse oracles", "6 C15"),
  "C16": ("proof", "Theorems on the hex kernel model: shape invariant; layout convention for cells created from 8 vertices or accepted with topology check (repaired code: the re-ordered list is verified); orientation tables over the whole domain; "
-         "hex_vertices pattern; sheet circulators. Tie: hex scripts incl. all 720 permutations of a valid halfface list (thorough) in lock step; layout oracle.",
+         "hex_vertices cube pattern, layout and vertex-disjoint opposite faces for every well-formed stored cell, and every cell the checked add_cell(halffaces) accepts on faces with four distinct vertices is well formed (repaired code: "
+         "eight distinct vertices, disjoint top/bottom); sheet circulators. Tie: hex scripts incl. all 720 permutations of a valid halfface list (thorough) in lock step; layout and vertex-count oracles.",
          "Coq proof over the hex kernel model (+ whole-domain vm_compute for orientation tables) + lock-step correspondence + layout oracle", "6 C16"),
 })
 NOT_YET = {}
